@@ -165,6 +165,24 @@ Proof.
 Qed.
 Print Assumptions C18_syntax_error_first_nonviable_partial.
 
+(* Both halves, for all inputs, on the value and type sub-grammars (Syntax/Grammar.v DValue, DType):
+   when the recogniser of Value[Const] / Type stops at token t having consumed u, then u is the
+   beginning of a derivable value / type (a completion is constructed in the proof) and nothing
+   derivable begins with u followed by t.  For the other productions the first half is what
+   C18_syntax_error_first_nonviable_partial establishes per input. *)
+From GQL Require Import Syntax.Grammar Proofs.SynErrComplete.
+Theorem C18_value_viable_prefix_partial : forall fuel c u t rest,
+  parse_valueE fuel c (u ++ t :: rest) = ErrE (t :: rest) ->
+  (exists cont v, DValue c (u ++ cont) v) /\ (forall q v, ~ DValue c (u ++ t :: q) v).
+Proof. exact value_viable_prefix. Qed.
+Print Assumptions C18_value_viable_prefix_partial.
+
+Theorem C18_type_viable_prefix_partial : forall fuel u t rest,
+  parse_typeE fuel (u ++ t :: rest) = ErrE (t :: rest) ->
+  (exists cont ty, DType (u ++ cont) ty) /\ (forall q ty, ~ DType (u ++ t :: q) ty).
+Proof. exact type_viable_prefix. Qed.
+Print Assumptions C18_type_viable_prefix_partial.
+
 From Coq Require Import String.
 (* non-vacuity: a parser report, a lexer report, a required non-empty list, and a witness *)
 Example C18_syntax_nonvacuous :
